@@ -91,6 +91,9 @@ def eval_state(job):
     if orbit is None:
         orbit = G.classify(n, gens)
     cid = cid_map(n).get(orbit)
+    if cid is None:
+        rec("C04.cost_depth_eq_metadata.class_known", False, f"{label} on {n}-{conn}: no class id has its representative graph in the state's LC orbit (orbit {orbit})")
+        return out
     info = cl.stabilizer_circuit_lookup(n, conn, cid)
     for nm, gl in circuits:
         c, d = P.two_qubit_cost(gl), P.two_qubit_depth(n, gl)
